@@ -398,3 +398,35 @@ func TestReplay(t *testing.T) {
 		}
 	}
 }
+
+// FuzzScenario drives the scenario generator of the property named by
+// VERIF_PROPERTY from the bytes of Go's coverage-guided fuzzer
+// (rapid.MakeFuzz): the same generator and oracle as Test<ID>, but the search
+// is steered by the branch coverage of the processor instead of rapid's random
+// source. Thorough tier only; a failure is saved as an ordinary scenario file.
+func FuzzScenario(f *testing.F) {
+	id := os.Getenv("VERIF_PROPERTY")
+	sp, ok := specs[id]
+	if !ok {
+		f.Skip("VERIF_PROPERTY names no scenario property")
+	}
+	rec := kit.Get(id)
+	// rapid reads its draws from the fuzz bytes (eight per draw) and gives up
+	// on an input that runs out: start from byte strings long enough for a
+	// whole scenario (a fixed SHA-256 chain, so the corpus is deterministic)
+	for i := 0; i < 32; i++ {
+		f.Add(kit.SeedBytes(fmt.Sprintf("%s/%d", id, i), 4096))
+	}
+	f.Fuzz(func(t *testing.T, data []byte) {
+		rapid.MakeFuzz(func(rt *rapid.T) {
+			sc := GenScenario(rt, sp.profile)
+			kit.SaveCurrent(id, sc)
+			h := Run(t, sc)
+			fc := classify(h)
+			rec.Case(sp.nontrivial(fc, h), shapeOf(h), append(fc.labels, "fuzz:coverage_guided"), sampleScenario(h))
+			if msg := sp.verdict(h); msg != "" {
+				rec.Fail(rt, sc, "%s\nscenario: %s", msg, sc.Summary())
+			}
+		})(t, data)
+	})
+}
